@@ -282,15 +282,24 @@ func (r restServerProtocol) protocol() Protocol {
 func (r restServerProtocol) addProtocolRequestHeaders(meta requestMeta, headers http.Header) {
 	// TODO: don't set content-type on no body requests.
 	headers["Content-Type"] = []string{contentRestPrefix + meta.codec}
+	// Control headers of this protocol that the request metadata does not call
+	// for are removed: a client of another protocol may have sent them as
+	// ordinary headers.
 	if meta.compression != "" {
 		headers["Content-Encoding"] = []string{meta.compression}
+	} else {
+		delete(headers, "Content-Encoding")
 	}
 	if len(meta.acceptCompression) != 0 {
 		headers["Accept-Encoding"] = []string{strings.Join(meta.acceptCompression, ", ")}
+	} else {
+		delete(headers, "Accept-Encoding")
 	}
 	if meta.hasTimeout {
 		value := restEncodeTimeout(meta.timeout)
 		headers["X-Server-Timeout"] = []string{value}
+	} else {
+		delete(headers, "X-Server-Timeout")
 	}
 }
 
